@@ -73,6 +73,16 @@ class Ctx:
     def trusted(self, rule, role, where, detail, **kw):
         return self.ob(rule, role, where, TRUSTED, detail, **kw)
 
+    def floor(self, rule, role, where, n, need, detail, key, public=False):
+        """Instance-count floor.  Counts of *public* anchors (trait impls, public methods) fail closed; counts of private code
+        shapes (literal sites, helper functions, loops) may legitimately shrink under a refactoring (two literals merged into
+        a helper): a partial drop is recorded as unresolved, only a complete loss of the role is refuted."""
+        if n >= need:
+            return None
+        if public or n == 0:
+            return self.bad(rule, role, where, detail, key=key)
+        return self.unresolved(rule, role, where, detail + ' (fewer instances than confirmed by reading; not an alarm, the rule still ran on those found)', key=key)
+
     def assume(self, text):
         if text not in self.assumptions:
             self.assumptions.append(text)
